@@ -70,6 +70,7 @@ func (t *thread) main(body func(fr *frame)) {
 		p := recover()
 		switch p := p.(type) {
 		case nil:
+			return
 		case pathAbort:
 			return
 		case unsupportedErr:
